@@ -69,6 +69,9 @@ func discharge(obs []*Obligation, scratch string, tier string, seed int) {
 			defer wg.Done()
 			sem <- struct{}{}
 			defer func() { <-sem }()
+			if ob.Result != "" {
+				return // decided inline during symbolic execution (consistency covers)
+			}
 			file := filepath.Join(scratch, fmt.Sprintf("ob%05d.smt2", idx))
 			if err := os.WriteFile(file, []byte(ob.Script), 0o644); err != nil {
 				ob.Result, ob.Output = "error", err.Error()
